@@ -46,6 +46,8 @@ type tunCfg struct {
 	ReadErr     bool // the client's socket read fails at a decision-chosen instant (ICMP error): the receiver ends
 	Starve      int  // permille of library goroutines held back at start
 	StarveMax   time.Duration
+	Stall       int
+	StallMax    time.Duration
 	FaultFree   bool
 	MaxSteps    int
 }
@@ -149,6 +151,10 @@ func drawTunCfg(e *Env) tunCfg {
 		c.LateMax = c.R / 4
 	}
 	c.Window = 1
+	if (p == "C05" || p == "C17" || p == "C04" || p == "C10") && e.Choose("cfg.stall", 4) == 0 {
+		c.Stall = []int{3, 10, 30}[e.Choose("cfg.stallp", 3)]
+		c.StallMax = e.PickDur("cfg.stallmax", time.Millisecond, 10*time.Millisecond)
+	}
 	if p == "C03" || p == "C09" || p == "C10" || p == "C04" {
 		c.ReuseChan = e.Choose("cfg.reusechan", 4) == 0
 	}
@@ -255,10 +261,10 @@ func drawTunCfg(e *Env) tunCfg {
 }
 
 func (c tunCfg) String() string {
-	return fmt.Sprintf("tcp=%v R=%v T=%v H=%v local=%v senders=%dx%d think=%v inbound=%d/%v reader=%s closers=%d early=%v up={drop=%d dup=%d late=%d dmax=%v} down={drop=%d dup=%d late=%d dmax=%v} tlate=%d adv=%d dir=%d foreignonly=%v sticky=%d pct=%d window=%d starve=%d/%v reusechan=%v werr=%d rerr=%v",
+	return fmt.Sprintf("tcp=%v R=%v T=%v H=%v local=%v senders=%dx%d think=%v inbound=%d/%v reader=%s closers=%d early=%v up={drop=%d dup=%d late=%d dmax=%v} down={drop=%d dup=%d late=%d dmax=%v} tlate=%d adv=%d dir=%d foreignonly=%v sticky=%d pct=%d window=%d starve=%d/%v reusechan=%v werr=%d rerr=%v stall=%d/%v",
 		c.TCP, c.R, c.T, c.H, c.LocalAddr, c.Senders, c.SendsEach, c.Think, c.Inbound, c.InboundGap, c.Reader, c.Closers, c.CloseEarly,
 		c.Up.DropPermille, c.Up.DupPermille, c.Up.LatePermille, c.Up.DelayMax, c.Down.DropPermille, c.Down.DupPermille, c.Down.LatePermille, c.Down.DelayMax,
-		c.TimerLate, c.Adversary, c.Director, c.ForeignOnly, c.Sticky, c.PCT, c.Window, c.Starve, c.StarveMax, c.ReuseChan, c.WriteErr, c.ReadErr)
+		c.TimerLate, c.Adversary, c.Director, c.ForeignOnly, c.Sticky, c.PCT, c.Window, c.Starve, c.StarveMax, c.ReuseChan, c.WriteErr, c.ReadErr, c.Stall, c.StallMax)
 }
 
 func idMessage(id int) cemi.Message {
@@ -333,6 +339,8 @@ func runTunnel(e *Env) {
 		sc.LateMax = c.LateMax
 		sc.StarvePermille = c.Starve
 		sc.StarveMax = c.StarveMax
+		sc.StallPermille = c.Stall
+		sc.StallMax = c.StallMax
 		if e.Spec.MaxSteps == 0 {
 			sc.MaxSteps = c.MaxSteps
 		}
